@@ -57,6 +57,8 @@ enum {
 	Q_PAC_INDENT_DESTRUCTIVE,
 	Q_CURSOR_COL33,
 	Q_CODES_BEFORE_STYLE,
+	/* named deviations of the second implementation, src/cc608_decoder.c (mode cc608) */
+	Q_CC608_COLOUR_PAC_KEEPS_COLUMN,
 	Q_COUNT
 };
 
@@ -84,6 +86,7 @@ static const char *const m_quirk_name[Q_COUNT] = {
 	"Q-PAC-indent-destructive",
 	"Q-cursor-column-33",
 	"Q-codes-before-style",
+	"Q-colour-PAC-keeps-column",
 };
 
 /* What a quirk stands for on the tree under test:
@@ -117,7 +120,19 @@ static const uint8_t m_quirk_open[Q_COUNT] = {
 	QK_REPAIRED,  /* Q-PAC-indent-destructive                C08-09 */
 	QK_REPAIRED,  /* Q-cursor-column-33                      C08-01 */
 	QK_REPAIRED,  /* Q-codes-before-style: reachable by generated histories only through Q-channel-state-shared (C08-04) */
+	QK_REPAIRED,  /* Q-colour-PAC-keeps-column: cc608_decoder.c only */
 };
+
+/* the same for src/cc608_decoder.c as the system under test */
+static const uint8_t m_quirk_open_cc608[Q_COUNT] = {
+	QK_REPAIRED, QK_REPAIRED, QK_REPAIRED, QK_REPAIRED, QK_REPAIRED, QK_REPAIRED, QK_REPAIRED, QK_REPAIRED, QK_REPAIRED, QK_REPAIRED,
+	QK_REPAIRED, QK_REPAIRED, QK_REPAIRED,
+	QK_OPTION,    /* Q-no-extended-chars */
+	QK_REPAIRED, QK_REPAIRED, QK_REPAIRED, QK_REPAIRED, QK_REPAIRED, QK_REPAIRED, QK_REPAIRED, QK_REPAIRED, QK_REPAIRED,
+	QK_OPEN,      /* Q-colour-PAC-keeps-column */
+};
+static int m_sut_cc608;
+#define m_qstatus(q) (m_sut_cc608 ? m_quirk_open_cc608[q] : m_quirk_open[q])
 
 #define QBIT(q) (1u << (q))
 #define QON(m, q) (((m)->quirks >> (q)) & 1u)
@@ -435,7 +450,7 @@ static void m_pac(struct model *m, struct m_chan *c, int c1, int c2)
 	mm = m_target(c);
 	/* (e)(1)(i) [RU]: "an indent of 0 places the cursor at Column 1, an indent of 4 sets it at
 	 * Column 5"; the colour PACs of the table are indent 0.  "The PAC indent is non-destructive" */
-	c->col = 1 + indent;
+	if ((c2 & 0x10) || !QON(m, Q_CC608_COLOUR_PAC_KEEPS_COLUMN)) c->col = 1 + indent;
 	if (QON(m, Q_PAC_INDENT_DESTRUCTIVE)) {
 		int i;
 		for (i = 1; i <= indent; i++) m_empty_at(mm, c->row, i);
